@@ -34,12 +34,18 @@ class Interrupter:
         dist.misfit = misfit
 
 
-def run_tuned(rnd, sampler_kind, interrupt=False):
+def run_tuned(rnd, sampler_kind, interrupt=False, on_the_boundary=False):
     _, S, MM, D = _hm()
     kind = rnd.choice(["normaldiag", "himmelblau", "stdnormal", "laplace"])
     d = {"himmelblau": 2, "stdnormal": 1}.get(kind, rnd.choice([1, 2, 3]))
     dist, tstr, bstr, tdesc, lb, ub = make_target(rnd, kind, d, rnd.random() < 0.3)
     nasty = rnd.random() < 0.4
+    if on_the_boundary:
+        # a target so narrow that the first proposals have acceptance probability exactly 0, and an initial step size equal to the target acceptance rate:
+        # the first update lands exactly on 0.0 ("clamped to the minimal positive step size": zero is not positive)
+        d = rnd.choice([1, 2])
+        dist, lb, ub, nasty = D.Normal(np.zeros((d, 1)), 1e-14), None, None, False
+        tdesc = {"kind": "normalscalar", "d": d, "variance": 1e-14}
     if nasty:
         Nasty.install(dist, rnd, 0.35)
     P = rnd.choice([1, 2, 3, 7, 15, 30])
@@ -53,11 +59,15 @@ def run_tuned(rnd, sampler_kind, interrupt=False):
     calls = CallLog()
     calls.wrap(dist, "misfit")
     q0 = inside_start(rnd, d, lb, ub)
+    if on_the_boundary:
+        q0 = np.zeros((d, 1))      # at the mode: every proposal is astronomically worse, its acceptance probability underflows to exactly 0
     lr = rnd.choice([0.75, 1.0, 0.51, rnd.uniform(0.5001, 1.0)])
     target = rnd.choice([0.65, 0.3, 0.9])
     step0 = rnd.choice([0.1, 1.0, 1e-3, 5.0, rnd.uniform(0.01, 3)])
     # a scalar step is a scalar however it is spelled: int, numpy.float64 (what a previous tuned run leaves in sampler.stepsize), numpy.float32
     step_spelling = rnd.choice(["float", "float", "float", "int", "numpy.float64", "numpy.float32", "continue"])
+    if on_the_boundary:
+        step0, step_spelling = target, "float"
     if step_spelling == "int":
         step0 = float(rnd.choice([1, 2, 3]))
     seed = rnd.randrange(1 << 30)
@@ -150,7 +160,9 @@ def run(tier, seed):
     N = 240 if thorough else 70
     for i in range(N):
         kind = "RWMH" if i % 2 == 0 else "HMC"
-        desc, s, trans, attrs = run_tuned(rnd, kind, interrupt=(i % 5 == 4))
+        desc, s, trans, attrs = run_tuned(rnd, kind, interrupt=(i % 5 == 4), on_the_boundary=(i in (6, 7, 16, 17)))
+        if i in (6, 7, 16, 17):
+            st.count("first update lands exactly on zero")
         if "raised" in desc:
             st.case(desc, nontrivial=False)
             if "AssertionError" in desc["raised"] and "scalar stepsizes" in desc["raised"]:
